@@ -24,17 +24,43 @@ Theorem C01_break_guard : forall pre body rest,
 Proof. exact break_guard. Qed.
 Print Assumptions C01_break_guard.
 
+(* `continue` placement: outside every loop it is rejected (directly, and under an if); ... *)
+Theorem C01_continue_guard : forall pre rest main,
+  transl {| p_pre := PContinue :: rest; p_main := main |} = None /\
+  (forall c e, transl {| p_pre := pre ++ [PIf c [PContinue] [] e]; p_main := main |} = None).
+Proof. exact continue_guard. Qed.
+Print Assumptions C01_continue_guard.
+
+(* ... directly in the body of the main loop it is `return;` from loop() (the runtime starts the next
+   pass), inside a for/while loop it is `continue;`. *)
+Theorem C01_continue_translation : forall cnt e, let x := [107] in
+  transl {| p_pre := []; p_main := Some [PContinue] |}
+    = Some {| c_globals := []; c_setup := []; c_loop := [NReturn] |} /\
+  transl {| p_pre := []; p_main := Some [PFor x cnt [PContinue]; PWrite e] |}
+    = Some {| c_globals := []; c_setup := []; c_loop := [NFor x (a_id cnt) [NContinue]; NWrite (a_id e)] |} /\
+  transl {| p_pre := [PWhile cnt [PContinue]]; p_main := None |}
+    = Some {| c_globals := []; c_setup := [NWhile (a_id cnt) [NContinue]]; c_loop := [] |}.
+Proof. exact continue_translation. Qed.
+Print Assumptions C01_continue_translation.
+
 (* Statement-level SIMULATION (reject-or-preserve, statement layer).  For every program that
    [transl] accepts and that lies inside the executable guard [guard_ok]
      - every variable is first assigned at top level of the setup part (so it is a C global), or at
        top level of the `while True:` body before any read of it in that body (so it is a local of
        loop() that every pass assigns before using it),
      - every later assignment / augmented assignment keeps the type label of the first one,
-     - tuple assignment only as the declaration `x1, ..., xn = e1, ..., en` of n distinct NEW names at top
-       level of the setup part (plain global declarations; no swap, no temporaries),
+     - tuple assignment `x1, ..., xn = e1, ..., en` either as the declaration of n distinct NEW names at top
+       level of the setup part (plain global declarations), or (n >= 1) to names that are ALL declared already and
+       keep their types - swap, rotation, parallel assignment, at any nesting level and in the main loop: the
+       right-hand sides go to temporaries `__tmp_assign_k` local to the enclosing block, then the names are
+       assigned in order (a tuple that mixes new and declared names, or declares names inside the main loop,
+       stays outside),
+     - declared names are not spelled like a temporary (StmtGuard.is_tmp; no Python identifier is),
      - range() bounds are int-labelled, do not read the loop variable nor any name the loop
        body assigns, loop variables are fresh, never assigned, and read only inside their loop,
      - expression ids identify annotations consistently,
+     - `continue` anywhere (Python: next iteration of the innermost for/while loop, or next pass of the main
+       loop; C: `continue;` - the for header still runs ++x - resp. `return;` from loop()),
    and for every expression semantics [sem]/[augsem] shared by both sides that satisfies
    [sem_facts] (the type label of an expression is the type of its value: the interface to the
    expression layer, units C01_expr / C02): whenever the Python execution (top-level statements,
@@ -51,8 +77,9 @@ Theorem C01_stmt_preserve_partial :
 Proof. exact stmt_preserve_partial. Qed.
 Print Assumptions C01_stmt_preserve_partial.
 
-(* Inside the guard the only reason for rejection is a misplaced `break` ([breaks_ok]: every `break`
-   is inside a for/while loop and not directly at the level of the main loop): the parser model
+(* Inside the guard the only reason for rejection is a misplaced `break` / `continue` ([breaks_ok]: every `break`
+   is inside a for/while loop and not directly at the level of the main loop, every `continue` is inside a
+   for/while loop or the main loop): the parser model
    accepts every other guarded program ... *)
 Theorem C01_stmt_guard_accepts :
   forall p, guard_ok p = true -> breaks_ok p = true -> exists c, transl p = Some c.
@@ -85,6 +112,28 @@ Example C01_stmt_preserve_nonvacuous :
             cprog_exec demo_sem demo_aug (info_of demo) 30 4 true c = Some demo_trace.
 Proof. exact demo_ok. Qed.
 Print Assumptions C01_stmt_preserve_nonvacuous.
+
+(* ... and by a program with `continue` in a for loop (-> `continue;`) and at the level of the main loop
+   under an if (-> `return;`, which the translated program provably contains). *)
+Example C01_stmt_preserve_nonvacuous_continue :
+  guard_ok demo_cont = true /\ breaks_ok demo_cont = true /\ sem_facts demo_cont_sem demo_aug demo_cont /\
+  pprog_exec demo_cont_sem demo_aug 30 3 demo_cont = Some demo_cont_trace /\
+  exists c, transl demo_cont = Some c /\
+            In NReturn (match c_loop c with [_; NIf [(_, b)] _; _] => b | _ => [] end) /\
+            cprog_exec demo_cont_sem demo_aug (info_of demo_cont) 30 3 true c = Some demo_cont_trace.
+Proof. exact demo_cont_ok. Qed.
+Print Assumptions C01_stmt_preserve_nonvacuous_continue.
+
+(* ... and by a program with tuple assignments to declared names (Fibonacci step in a for body, swap in the main
+   loop), whose translation provably starts loop() with the declaration of temporary 2 (the for body used 0 and 1). *)
+Example C01_stmt_preserve_nonvacuous_swap :
+  guard_ok demo_swap = true /\ breaks_ok demo_swap = true /\ sem_facts demo_swap_sem demo_aug demo_swap /\
+  pprog_exec demo_swap_sem demo_aug 30 2 demo_swap = Some demo_swap_trace /\
+  exists c, transl demo_swap = Some c /\
+            (exists t e r, c_loop c = NDeclTmp 2 t e :: r) /\
+            cprog_exec demo_swap_sem demo_aug (info_of demo_swap) 30 2 true c = Some demo_swap_trace.
+Proof. exact demo_swap_ok. Qed.
+Print Assumptions C01_stmt_preserve_nonvacuous_swap.
 
 (* ... and by a program whose main loop declares a local (first assignment at body level). *)
 Example C01_stmt_preserve_nonvacuous_local :
